@@ -11,7 +11,10 @@ TInit == l = 1 /\ TLCSet(1, 0) /\ Init
 TNext ==
     \/ Is("run") /\ RunPhase(Rec.exp, Rec.pool, Rec.w, Rec.tid, Rec.pika = 1, Rec.inline = 1, Rec.hint, Rec.prio) /\ Adv
     \/ Is("runstd") /\ RunStd(Rec.tid, Rec.pika = 1, Rec.inline = 1, Rec.stid) /\ Adv
-    \/ Is("end") /\ Rec.runs = Rec.expected /\ UNCHANGED vars /\ Adv     \* nothing dropped or duplicated
+    \* end of a history.  C10 states WHERE a callable runs, not how often: a difference between the number of
+    \* executions and of submissions (Rec.runs, Rec.expected) is C01's business and is reported as drift by the
+    \* runner, not judged here
+    \/ Is("end") /\ UNCHANGED vars /\ Adv
     \/ Is("reset") /\ seenStd' = {} /\ UNCHANGED workerTids /\ Adv
 TSpec == TInit /\ [][TNext]_tvars
 NotAccepted == l <= Len(TraceLog)
